@@ -87,5 +87,44 @@ theorem writeCells_get (rows : Nat) (hr : 0 < rows) (f : Nat → Nat) (lo n : Na
           intro h; exact h3 h.1
         rw [if_neg e2, if_neg e3]
 
+/-- the inner loop of `configure_wrap`: `for j in 0..n { data[dst][j] = data[src][j + 1] }` -/
+def shiftLoop (dst src n : Nat) (d : Mat Nat C) : Mat Nat C :=
+  (List.range n).foldl (fun d j => d.set dst j (d.get src (j + 1))) d
+
+theorem shiftLoop_rows (dst src n : Nat) (d : Mat Nat C) : (shiftLoop dst src n d).rows = d.rows := by
+  unfold shiftLoop
+  induction n with
+  | zero => rfl
+  | succ n ih => rw [foldl_range_succ]; simp [ih]
+
+/-- closed form of the inner loop.  It holds even when `dst = src` (a wrap row copied from itself,
+    which happens when the sequence is empty): step `j` reads cell `j+1`, which no earlier step wrote. -/
+theorem shiftLoop_get (dst src n : Nat) (hn : n ≤ C) (d : Mat Nat C) (t c : Nat) :
+    (shiftLoop dst src n d).get t c =
+      if t = dst ∧ c < n ∧ dst < d.rows then d.get src (c + 1) else d.get t c := by
+  induction n generalizing t c with
+  | zero => simp [shiftLoop]
+  | succ n ih =>
+    have hstep : shiftLoop dst src (n + 1) d =
+        (shiftLoop dst src n d).set dst n ((shiftLoop dst src n d).get src (n + 1)) := by
+      unfold shiftLoop; rw [foldl_range_succ]
+    rw [hstep, Mat.get_set, shiftLoop_rows, ih (by omega) t c, ih (by omega) src (n + 1)]
+    have hread : (if src = dst ∧ n + 1 < n ∧ dst < d.rows then d.get src (n + 1 + 1) else d.get src (n + 1))
+        = d.get src (n + 1) := by
+      rw [if_neg]; intro h; omega
+    rw [hread]
+    by_cases h1 : t = dst ∧ c = n ∧ dst < d.rows ∧ n < C
+    · obtain ⟨ha, hb, hc, hd⟩ := h1
+      subst ha; subst hb
+      rw [if_pos ⟨rfl, rfl, hc, hd⟩, if_pos ⟨rfl, by omega, hc⟩]
+    · rw [if_neg h1]
+      by_cases h2 : t = dst ∧ c < n ∧ dst < d.rows
+      · rw [if_pos h2, if_pos ⟨h2.1, by omega, h2.2.2⟩]
+      · rw [if_neg h2, if_neg]
+        intro h3
+        by_cases hcn : c = n
+        · exact h1 ⟨h3.1, hcn, h3.2.2, by omega⟩
+        · exact h2 ⟨h3.1, by omega, h3.2.2⟩
+
 end Striped
 end LMV
